@@ -80,6 +80,12 @@ inductive Fail where
   | badAnswer (i : Nat)
 deriving Repr, DecidableEq
 
+/-- failures of the size clause only (the content clauses are all other kinds) -/
+def Fail.sizeOnly : Fail → Bool
+  | .sizeWrong _ => true
+  | .sizeStaleAfterDedup _ => true
+  | _ => false
+
 def Fail.isStale : Fail → Bool
   | .sizeStaleAfterDedup _ => true
   | _ => false
@@ -242,14 +248,27 @@ def minimal (pending : List Call) (c : Call) : Bool :=
 /-- is there an order of the pending calls that respects real time (a call that
     responded before another was invoked comes first) and on which the sequential
     statement holds with the observed answers?  (`fuel` ≥ number of pending calls) -/
-def linearizable : Nat → St → List Call → Bool
+def linearizableWith (tol : Fail → Bool) : Nat → St → List Call → Bool
   | 0, _, pending => pending.isEmpty
   | fuel + 1, st, pending =>
     pending.isEmpty ||
     pending.any fun c =>
       minimal pending c &&
         (let (st', fs) := stepSt st 0 (c.op, c.obs)
-         fs.all Fail.isStale && linearizable fuel st' (pending.filter fun p => !p.same c))
+         fs.all tol && linearizableWith tol fuel st' (pending.filter fun p => !p.same c))
+
+/-- The size counters are updated by separate atomic adds that are not atomic with the
+    content they account for (`WriteMulti` adds optimistically before storing;
+    `DeleteRange` measures an entry, filters it and subtracts the difference while a
+    concurrent `entry.add` may land in between), so a size reported DURING a concurrent
+    block (the `Snapshot` answer) may deviate from what is held.  The size clause is
+    therefore decided on sequential histories and at quiescence only: inside a
+    concurrent block failures of the size clause alone do not reject an order; every
+    content clause does. -/
+def linearizable : Nat → St → List Call → Bool := linearizableWith Fail.sizeOnly
+
+/-- the same decision with exact sizes (only the known stale size tolerated) -/
+def linearizableExactSize : Nat → St → List Call → Bool := linearizableWith Fail.isStale
 
 /-- **the statement on a case that ends in a concurrent history**: the prefix
     satisfies the sequential statement and the history, taken key by key
@@ -282,7 +301,7 @@ def linearizableLossy (all : List Call) : Nat → St → List Call → Bool
     pending.any fun c =>
       minimal pending c &&
         ((let (st', fs) := stepSt st 0 (c.op, c.obs)
-          fs.all Fail.isStale && linearizableLossy all fuel st' (pending.filter fun p => !p.same c)) ||
+          fs.all Fail.sizeOnly && linearizableLossy all fuel st' (pending.filter fun p => !p.same c)) ||
          (racesDelete all c && linearizableLossy all fuel st (pending.filter fun p => !p.same c)))
 
 /-- the history is NOT linearizable, but it would be if writes racing a range delete of
@@ -293,5 +312,14 @@ def lostWriteRacingDelete (pre : List (Op × Obs)) (hist : List Call) : Bool :=
   | some st =>
     let calls := hist.flatMap Call.parts
     !linearizable calls.length st calls && linearizableLossy calls calls.length st calls
+
+/-- the history is linearizable only because sizes reported inside the concurrent block
+    are not held to the size clause (evidence tag `conc:size-racy`) -/
+def sizeRacy (pre : List (Op × Obs)) (hist : List Call) : Bool :=
+  match finalSt {} 0 pre with
+  | none => false
+  | some st =>
+    let calls := hist.flatMap Call.parts
+    linearizable calls.length st calls && !linearizableExactSize calls.length st calls
 
 end Influx.Spec.C09
